@@ -1,7 +1,8 @@
 (* C02 — property theorems only.  Each is closed by [exact <lemma>] and followed by
    Print Assumptions; the statements are pinned here so they cannot be quietly weakened. *)
 From FB Require Import C02.Model C02.Encode C02.Theory1 C02.Theory2 C02.Theory3 C02.Theory4 C02.Theory5
-  C02.Theory6 C02.Theory7 C02.Theory8 C02.Theory9 C02.Frames C02.TheoryF C02.Gen.
+  C02.Theory6 C02.Theory7 C02.Theory8 C02.Theory9 C02.Frames C02.TheoryF C02.Gen
+  C02.Class C02.Decode C02.Facts C02.TheoryC1 C02.TheoryC2 C02.TheoryC3 C02.TheoryC4 C02.TheoryC5 C02.TheoryC6 C02.TheoryC7 C02.TheoryC8 C02.TheoryC9 C02.TheoryC10 C02.TheoryC11 C02.TheoryG.
 Local Open Scope Z_scope.
 
 (* ---------- termination of the branch-offset fixpoint ---------- *)
@@ -233,6 +234,118 @@ Theorem C02_frames_example :
     dec_stack_map bs = Some [(0, DSame); (6, DAppend [DObject 9; DUninit 0]); (7, DFull [DSimple 1] [DSimple 4; DObject 12])].
 Proof. exact frames_example. Qed.
 Print Assumptions C02_frames_example.
+
+(* ---------- the whole class ---------- *)
+(* write_class_aux (C02/Class.v) is the model of duke::write_class: magic, version, the pool (emitted
+   last by the code, first in the file), access / this / super / interfaces, fields, methods and every
+   attribute writer.  parse_class (C02/Decode.v) is an independent decoder of the JVMS layout that fails
+   on any index that is out of range or designates an entry of the wrong kind, on any attribute whose
+   length field differs from the bytes its content takes, on any unknown tag and on trailing bytes.
+   For every tree that satisfies the decidable well-formedness cclass_ok (u16 / u8 / i32 / i64 ranges of
+   the numeric fields, element-value tags matching their constants, type-annotation targets legal for
+   their location, unknown-attribute names not predefined at their location, labels unique per method):
+   if writing succeeds, the decoder accepts the file and returns exactly the facts of the tree
+   (facts_of: header, members, and per location the attributes with every reference spelled out;
+   positions in code are the offsets the written layout gives the labels; the code array is the one
+   C02_write_is_encode / C02_targets_preserved speak about). *)
+Theorem C02_write_class_decodes : forall t bs aux,
+  cclass_ok t = true -> write_class_aux t = OK (bs, aux) ->
+  exists d, facts_of t aux = Some d /\ parse_class bs = Some d.
+Proof. exact write_class_decodes. Qed.
+Print Assumptions C02_write_class_decodes.
+
+(* the constant pool as written: the decoder parses it entry by entry and sees, at every index the
+   writer handed out, the entry that was put there *)
+Theorem C02_pool_written_parses : forall p pb,
+  PInv p -> Forall made (p_inner p) -> pool_bytes p = Ok pb ->
+  exists c, agrees p c /\ forall rest, parse_pool (pb ++ rest) = Some (c, rest).
+Proof. exact pool_bytes_ok. Qed.
+Print Assumptions C02_pool_written_parses.
+
+(* "of the right kind": the index a put returns resolves, through the decoder's kind-checked getter,
+   in every later pool, to what was put (shown here for classes, member references and method handles;
+   the other kinds are in C02/TheoryC2.v) *)
+Theorem C02_put_class_refers : forall n, wspec (put_class n) (refers get_class n).
+Proof. exact put_class_spec. Qed.
+Print Assumptions C02_put_class_refers.
+Theorem C02_put_methodref_refers : forall r, wspec (put_methodref r) (refers get_methodref r).
+Proof. exact put_methodref_spec. Qed.
+Print Assumptions C02_put_methodref_refers.
+Theorem C02_put_handle_refers : forall h, handle_ok h = true -> wspec (put_handle h) (refers get_handle h).
+Proof. exact put_handle_spec. Qed.
+Print Assumptions C02_put_handle_refers.
+
+(* the Code attribute alone (any state of the pool that satisfies the invariant) *)
+Theorem C02_code_attribute_decodes : forall c, ccode_ok c = true ->
+  wspec (write_code_attr c) (fun p r => exists d, fa_code c (snd r) = Some d /\ decodes p_code d p (fst r)).
+Proof. exact write_code_attr_spec. Qed.
+Print Assumptions C02_code_attribute_decodes.
+
+(* the pool operands inside the code array: at the position of every instruction that carries a
+   constant, the written code array holds the instruction's bytes with an index that designates the
+   constant (class, field / method / interface-method reference with class, name and descriptor, the
+   loadable of an ldc in the form the index demands; for invokedynamic and dynamic constants the
+   entry, its name and type) — in the final pool and for every decoder view that agrees with it *)
+Theorem C02_code_operands_resolve : forall c, ccode_ok c = true ->
+  wspec (write_code_attr c) (fun p r => Forall2 (fun i q => operand_ok p (fst (fst (snd r))) q (snd i)) (c_insns c) (snd (snd r))).
+Proof. exact code_operands_resolve. Qed.
+Print Assumptions C02_code_operands_resolve.
+
+(* writing succeeds or fails cleanly: the model of the whole writer never answers PANIC.  cclass_np
+   (decidable): every tableswitch span fits i32 and, per method, the start label of every local-variable
+   range (LocalVariableTable, LocalVariableTypeTable, localvar type-annotation targets) is not after its
+   end label — the two places where the Rust code computes on i32 / u16 without a check *)
+Theorem C02_write_class_no_panic : forall t, cclass_ok t = true -> cclass_np t = true -> write_class t <> PANIC.
+Proof. exact write_class_no_panic. Qed.
+Print Assumptions C02_write_class_no_panic.
+
+Theorem C02_class_example :
+  cclass_ok ex_class = true /\
+  exists bs aux d, write_class_aux ex_class = OK (bs, aux) /\ facts_of ex_class aux = Some d /\ parse_class bs = Some d /\
+                   zlen bs = 567 /\ length (d_attrs d) = 5%nat /\ a_bsm aux = [(ex_handle, [19; 4])].
+Proof. exact class_example. Qed.
+Print Assumptions C02_class_example.
+
+(* ---------- the whole-class model against the tables regenerated from the source ---------- *)
+(* per writer function: the attributes in source order with their framing, as the model writes them *)
+Theorem C02_attr_sites_match :
+  attr_sites_of [119;114;105;116;101]%N = model_attrs_write /\
+  attr_sites_of [119;114;105;116;101;95;102;105;101;108;100]%N = model_attrs_write_field /\
+  attr_sites_of [119;114;105;116;101;95;109;101;116;104;111;100]%N = model_attrs_write_method /\
+  attr_sites_of [119;114;105;116;101;95;99;111;100;101]%N = model_attrs_write_code /\
+  attr_sites_of [119;114;105;116;101;95;114;101;99;111;114;100;95;99;111;109;112;111;110;101;110;116]%N = model_attrs_write_record_component.
+Proof. exact attr_sites_match. Qed.
+Print Assumptions C02_attr_sites_match.
+
+Theorem C02_attr_sites_covered :
+  length attr_use_sites = (length model_attrs_write + length model_attrs_write_field + length model_attrs_write_method + length model_attrs_write_code + length model_attrs_write_record_component)%nat.
+Proof. exact attr_sites_covered. Qed.
+Print Assumptions C02_attr_sites_covered.
+
+Theorem C02_pool_tags_match :
+  map (fun c => hd 0%N (centry_bytes c))
+    [CUtf8 []; CInteger 0; CFloat 0; CLong 0; CDouble 0; CClass 0; CString 0; CFieldRef 0 0; CMethodRef 0 0; CIMethodRef 0 0;
+     CNameAndType 0 0; CMethodHandle 0 0; CMethodType 0; CDynamic 0 0; CInvokeDynamic 0 0; CModule 0; CPackage 0] = src_pool_tags
+  /\ MAGIC = be32 src_MAGIC.
+Proof. exact pool_tags_match. Qed.
+Print Assumptions C02_pool_tags_match.
+
+Theorem C02_put_sites_match :
+  sites_of [119;114;105;116;101]%N put_sites = model_puts_write /\
+  sites_of [119;114;105;116;101;95;102;105;101;108;100]%N put_sites = model_puts_write_field /\
+  sites_of [119;114;105;116;101;95;109;101;116;104;111;100]%N put_sites = model_puts_write_method /\
+  sites_of [119;114;105;116;101;95;114;101;99;111;114;100;95;99;111;109;112;111;110;101;110;116]%N put_sites = model_puts_write_record_component /\
+  sites_of [119;114;105;116;101;95;109;111;100;117;108;101]%N put_sites = model_puts_write_module /\
+  sites_of [119;114;105;116;101;95;101;108;101;109;101;110;116;95;118;97;108;117;101;95;117;110;110;97;109;101;100]%N put_sites = model_puts_write_element_value_unnamed /\
+  sites_of [119;114;105;116;101;95;118;101;114;105;102;105;99;97;116;105;111;110;95;116;121;112;101;95;105;110;102;111]%N put_sites = model_puts_write_verification_type_info /\
+  sites_of [119;114;105;116;101;95;97;116;116;114;105;98;117;116;101]%N put_sites = model_puts_write_attribute /\
+  sites_of [119;114;105;116;101;95;97;116;116;114;105;98;117;116;101;95;102;105;120;95;108;101;110;103;116;104]%N put_sites = model_puts_write_attribute_fix_length /\
+  sites_of [119;114;105;116;101;95;97;110;110;111;116;97;116;105;111;110;115;95;97;116;116;114;105;98;117;116;101]%N put_sites = model_puts_write_annotations_attribute /\
+  sites_of [119;114;105;116;101;95;101;108;101;109;101;110;116;95;118;97;108;117;101;115;95;110;97;109;101;100]%N put_sites = model_puts_write_element_values_named /\
+  sites_of [119;114;105;116;101;95;116;121;112;101;95;97;110;110;111;116;97;116;105;111;110;115;95;97;116;116;114;105;98;117;116;101]%N put_sites = model_puts_write_type_annotations_attribute /\
+  sites_of [119;114;105;116;101;95;116;121;112;101;95;97;110;110;111;116;97;116;105;111;110;115;95;97;116;116;114;105;98;117;116;101;95;99;111;100;101]%N put_sites = model_puts_write_type_annotations_attribute_code.
+Proof. exact put_sites_match. Qed.
+Print Assumptions C02_put_sites_match.
 
 (* ---------- non-vacuity ---------- *)
 Theorem C02_examples : nonvacuous.
